@@ -2,15 +2,18 @@
 //@include units/time.rs
 //@include units/speclib_arith.rs
 //@include units/vf_helpers.rs
+//@include units/vf_stream.rs
 //@include units/supply_trait.rs
 //@include units/fixed_point.rs
 //@include units/supply_impls.rs
 //@include units/arrival_basic.rs
 //@include units/wcet.rs
 //@include units/demand.rs
-//@include units/modules.rs
 //@include units/speclib_fp.rs
 //@include units/speclib_edf.rs
+//@include units/arrival_steps.rs
+//@include units/demand_steps.rs
+//@include units/modules_steps.rs
 //@include units/ros2_ecrts19.rs
 //@include units/lemmas_ecrts19.rs
 //@include units/fifo.rs
